@@ -153,7 +153,45 @@ def r5_copy_for_every_page(ctx, rep):
     rep.ob("page-level copy_subdir overrides the project setting", ok, "", "ford/pagetree.py")
 
 
+def r6_links_and_empty_pages(ctx, rep):
+    py = ctx.py
+    fa = py.func("RelativeLinksTreeProcessor._fix_attrib")
+    t = ast.unparse(fa)
+    splits = "urlsplit" in t or "urlparse" in t or ".partition('#')" in t or ".split('#'" in t
+    keeps = ("urlunsplit" in t or "fragment" in t or "geturl" in t) if splits else True
+    rep.ob("relative-link rewriting keeps #fragment and ?query", keeps,
+           "the whole attribute value is rewritten (fragment and query survive)" if keeps else
+           "_fix_attrib splits the URL and rewrites the attribute from its path only: `|page|/x.html#section` links lose "
+           "the section", py.nloc(fa))
+    ok = "relpath(tag_path, self.md.current_path)" in t or "relpath(" in t
+    rep.ob("links below the output directory are made relative to the current page", ok, "", py.nloc(fa))
+    mp = py.func("utils.meta_preprocessor")
+    n = 0
+    for sub in ast.walk(mp):
+        if isinstance(sub, ast.Subscript) and ast.unparse(sub.value) == "lines" and isinstance(sub.ctx, ast.Load) \
+                and isinstance(sub.slice, ast.Constant):
+            n += 1
+            p = sub
+            guarded = False
+            while p is not mp:
+                child = p
+                p = py.parents[p]
+                if isinstance(p, ast.BoolOp) and isinstance(p.op, ast.And) and any(
+                        ast.unparse(v) == "lines" for v in p.values[:p.values.index(child)] if child in p.values):
+                    guarded = True
+                if isinstance(p, (ast.While, ast.If)) and ast.unparse(p.test) in ("lines", "len(lines) > 0") and child in p.body:
+                    guarded = True
+            rep.ob(f"meta_preprocessor: lines[{sub.slice.value}] is read only when lines is non-empty", guarded,
+                   "an empty page / empty doc comment has no metadata and no error" if guarded else
+                   "`lines[0]` is read without checking that the file has any line: an empty .md page raises IndexError, "
+                   "which the `except ValueError` around sub-pages does not catch - the whole run aborts instead of "
+                   "skipping the page", py.nloc(sub))
+    if n == 0:
+        raise AnalysisError("meta_preprocessor: `lines[0]` access not found")
+
+
 RULES = [
+    RuleSpec("C17.R6", r6_links_and_empty_pages, "link fragments survive; an empty page is harmless", floor=3),
     RuleSpec("C17.R1", r1_containment, "containment of a bad page", floor=5),
     RuleSpec("C17.R2", r2_order, "ordering and exactly-once pages", floor=7),
     RuleSpec("C17.R3", r3_layout_names, "layout names agree", floor=7),
